@@ -4,7 +4,6 @@ import (
 	"encoding/json"
 	"fmt"
 	"strings"
-	"time"
 )
 
 func init() {
@@ -40,15 +39,12 @@ func (s *exprShape) leaves() int {
 
 // runGenExpr has TLC enumerate the expression family.
 func runGenExpr(c *Ctx, maxLeaves int) ([]*exprShape, []leafForm, bool) {
-	cfg := fmt.Sprintf("INIT Init\nNEXT Next\nCONSTANT MaxLeaves = %d\n", maxLeaves)
-	res, err := RunTLC("genexpr", TLCJob{Module: "GenExpr", Cfg: "GenExprRun.cfg", Data: map[string][]byte{"GenExprRun.cfg": []byte(cfg)},
-		Workers: 1, Timeout: 5 * time.Minute, ReadBack: []string{"shapes.ndjson", "forms.ndjson"}})
-	if err != nil || !res.Clean() {
-		c.Fatal("GenExpr enumeration failed: %v %v\n%s", err, res.Errors, tail(res.Output, 2000))
+	files, ok := cachedGenModule(c, "GenExpr", map[string]int{"MaxLeaves": maxLeaves}, "shapes.ndjson", "forms.ndjson")
+	if !ok {
 		return nil, nil, false
 	}
 	var shapes []*exprShape
-	for _, ln := range strings.Split(string(res.Files["shapes.ndjson"]), "\n") {
+	for _, ln := range files["shapes.ndjson"] {
 		if strings.TrimSpace(ln) == "" {
 			continue
 		}
@@ -60,7 +56,7 @@ func runGenExpr(c *Ctx, maxLeaves int) ([]*exprShape, []leafForm, bool) {
 		shapes = append(shapes, &s)
 	}
 	var forms []leafForm
-	for _, ln := range strings.Split(string(res.Files["forms.ndjson"]), "\n") {
+	for _, ln := range files["forms.ndjson"] {
 		if strings.TrimSpace(ln) == "" {
 			continue
 		}
